@@ -136,6 +136,7 @@ func Main(id, tier string) int {
 			fmt.Printf("KNOWN-FINDING: property=%s %s -- %s (%d witnessed cases)\n", id, s, e.f.What, e.seen)
 		}
 	}
+	os.RemoveAll(filepath.Join(VerifDir, "replays", id))
 	// replay artefacts for violations (first of each signature, at most 25 files)
 	written := 0
 	perSig := map[string]int{}
